@@ -8,6 +8,10 @@ use crate::{
 #[derive(Debug)]
 pub struct TypeRegistry {
     types: HashMap<ItemPath, ItemDefinition>,
+    /// Paths of items that will be generated while resolving (vftable structs). They are
+    /// known before they exist, so that name lookup does not depend on whether the type
+    /// that generates them has been resolved yet.
+    announced: std::collections::HashSet<ItemPath>,
     pointer_size: usize,
 }
 
@@ -15,6 +19,7 @@ impl TypeRegistry {
     pub(crate) fn new(pointer_size: usize) -> TypeRegistry {
         TypeRegistry {
             types: HashMap::new(),
+            announced: Default::default(),
             pointer_size,
         }
     }
@@ -58,6 +63,15 @@ impl TypeRegistry {
             .collect()
     }
 
+    /// Announce the path of an item that will only be added during resolution.
+    pub(crate) fn announce(&mut self, item_path: ItemPath) {
+        self.announced.insert(item_path);
+    }
+
+    fn is_item_path(&self, item_path: &ItemPath) -> bool {
+        self.types.contains_key(item_path) || self.announced.contains(item_path)
+    }
+
     pub(crate) fn add(&mut self, type_: ItemDefinition) {
         self.types.insert(type_.path.clone(), type_);
     }
@@ -66,22 +80,27 @@ impl TypeRegistry {
         // todo: take scope_modules and scope_types instead of scope so that we don't need
         // to do this partitioning
         let (scope_types, scope_modules): (Vec<&ItemPath>, Vec<&ItemPath>) =
-            scope.iter().partition(|ip| self.types.contains_key(ip));
+            scope.iter().partition(|ip| self.is_item_path(ip));
 
-        // If we find the relevant type within our scope, take the last one
-        scope_types
+        // If we find the relevant type within our scope, take the last one;
+        // otherwise, search our scopes
+        let item_path = scope_types
             .into_iter()
             .rev()
             .find(|st| st.last().map(|i| i.as_str()) == Some(name))
-            .map(|ip| Type::Raw(ip.clone()))
+            .cloned()
             .or_else(|| {
-                // Otherwise, search our scopes
                 std::iter::once(&ItemPath::empty())
                     .chain(scope_modules.iter().copied())
                     .map(|ip| ip.join(name.into()))
-                    .find(|ip| self.types.contains_key(ip))
-                    .map(Type::Raw)
-            })
+                    .find(|ip| self.is_item_path(ip))
+            })?;
+
+        // An announced item that has not been generated yet is not available yet
+        // (rather than absent, which would let a lower-precedence candidate win).
+        self.types
+            .contains_key(&item_path)
+            .then_some(Type::Raw(item_path))
     }
 
     pub(crate) fn resolve_grammar_type(
